@@ -157,7 +157,7 @@ def main():
     na.sort(key=lambda x: x["property_id"])
     m = {
         "version": 1,
-        "setup_cmd": "make -C /verif -j16 plain san",
+        "setup_cmd": "make -C /verif -j16 plain san && make -C /verif selftest",
         "hooks": {
             "guard": "USCXML_VERIF",
             "enable": "no source hooks in /repo: the seams are link-time wrappers (-Wl,--wrap) for pthread/clock calls, a simulated libevent (sim/simevent.cpp) and the uscxml::uuidGen global; /verif/Makefile builds usim from /repo's working tree with -DUSCXML_VERIF",
